@@ -6,6 +6,7 @@ import LexgenModel.Proofs.CompileLang
 import LexgenModel.Proofs.EndToEnd
 import LexgenModel.Proofs.RefMatch
 import LexgenModel.Proofs.Interchange
+import LexgenModel.Proofs.RunCongr
 /-!
 # C02 — Regex operators denote their documented languages
 
@@ -144,6 +145,25 @@ theorem C02_interchange_error_skip (rs1 rs2 : List CoreRule) (h : RulesEquiv rs1
     (h1 : ∀ r ∈ rs1, NoEmptyPieces r.re) (h2 : ∀ r ∈ rs2, NoEmptyPieces r.re) (iter : List Nat) :
     errAdvance (rs1.map (·.re)) iter = errAdvance (rs2.map (·.re)) iter :=
   errAdvance_congr rs1 rs2 h h1 h2 iter
+
+/-- **Interchangeability, end to end.** Two well-formed definitions with the same rule-set names in the same order and, rule by rule, the same action,
+the same right-context number and the same DENOTATION of regex and right contexts (`DefEquiv` — however the regexes are written: with or without `let`
+variables, `r+` or `r r*`, `a | b` or `b | a`, a string or the concatenation of its characters) compile to machines with different states and state
+numbers, but the models of the two generated lexers return the same items on every input, for every action table, after any number of calls of
+`next()`, and leave the same observable lexer state (position, user state, remaining input, end-of-input flag). Proof: both runs equal the run of the
+executable reference lexer (`run_fresh_eq_spec`), which reads the definition only through `den`. -/
+theorem C02_interchange_end_to_end {σ τ ε : Type} (items1 items2 : LexerDef) (c1 c2 : Compiled)
+    (h1 : compileLexer items1 = .ok c1) (h2 : compileLexer items2 = .ok c2)
+    (hok1 : DefOK items1) (hok2 : DefOK items2) (hne1 : DefNE items1) (hne2 : DefNE items2) (heq : DefEquiv items1 items2)
+    (actions : Nat → Action σ τ ε) (width : Nat → Nat) (input : Option (List Nat)) (user : σ) (chars : List Nat) (n : Nat) :
+    (runN (c1.config actions width input) n (initState user chars)).1 = (runN (c2.config actions width input) n (initState user chars)).1 ∧
+    (runN (c1.config actions width input) n (initState user chars)).2.obs = (runN (c2.config actions width input) n (initState user chars)).2.obs :=
+  run_congr items1 items2 c1 c2 h1 h2 hok1 hok2 hne1 hne2 heq actions width input user chars n
+
+/-- non-vacuity: `rule Init { let d = 'b'; 'a' $d+ = 0 }` and `rule Init { 'a' 'b' 'b'* = 0 }` both compile, are well-formed and are `DefEquiv` -/
+example : DefEquiv RunCongr.exLet RunCongr.exPlain ∧ DefOK RunCongr.exLet ∧ DefOK RunCongr.exPlain ∧ DefNE RunCongr.exLet ∧ DefNE RunCongr.exPlain ∧
+    (∃ c, compileLexer RunCongr.exLet = .ok c) ∧ (∃ c, compileLexer RunCongr.exPlain = .ok c) :=
+  ⟨RunCongr.exLet_equiv, RunCongr.exLet_ok, RunCongr.exPlain_ok, RunCongr.exLet_ne, RunCongr.exPlain_ne, RunCongr.exLet_compiles, RunCongr.exPlain_compiles⟩
 
 /-- the documented identities, as instances -/
 theorem C02_plus_is_r_rstar (r : Regex) (w : List Sym) : den (.plus r) w ↔ den (.cat r (.star r)) w := den_plus_unfold r w
